@@ -566,5 +566,109 @@ fn main() {
             });
         }
     }
+
+    // ---- 9. audit (notes/C17.md "Audit matrix"): lines no case reached + the laws the audit added -----------------------
+    {
+        let mut r = Rng::new(seed * 2000 + 9);
+        // (a) NaT.duration_trunc(d) returns NaT for every d (datetime.rs `return self`), and duration_trunc twice
+        for u in 0..4 {
+            let ds: Vec<(i32, i128)> = vec![(0, 1), (0, 1_000), (0, 1_000_000_000), (0, 3_600_000_000_000), (0, 86_400_000_000_000), (0, 1_500_000_000),
+                (0, 0), (0, -5), (1, 0), (3, 0), (12, 0), (5, 0), (-1, 0), (i32::MIN, 0), (1, 3_600_000_000_000), (0, 7 * PER_SEC[3 - u.min(3)] as i128)];
+            for &(m, ns) in &ds {
+                let mut xs = vec![(NAT, "nat")];
+                for (x, c) in dt_values(&mut r, u, if thorough { 6 } else { 1 }) { xs.push((x, c)); }
+                for (x, xclass) in xs {
+                    em.case("exact", &format!("fn=r17_trunc2 unit={} x={} months={} fixed={}", uname(u), xclass, m != 0, ns != 0),
+                        &format!("DateTime<{}>({}).duration_trunc(d).duration_trunc(d), d = TimeDelta{{months:{}, ns:{}}}", uname(u), x, m, ns),
+                        || format!("(r17_trunc2 {} {} {})", uname(u), z(x), td_coq(m, ns)), || {
+                        with_unit!(u, U => {
+                            prime(x, u); let d = DateTime::<U>::new(x); let t = td(m, ns);
+                            g(|| d.duration_trunc(t), |y| { let mut c = vec![int(y.into_i64())]; c.extend(gi(|| y.duration_trunc(t).into_i64())); c })
+                        })
+                    });
+                }
+            }
+        }
+        // (b) a - b then a - (a - b) = b
+        for u in 0..4 {
+            let mut pairs: Vec<(i64, i64, &str)> = vec![(0, 0, "equal"), (1, 0, "near"), (0, 1, "near"), (NAT, 0, "nat"), (0, NAT, "nat")];
+            for _ in 0..(if thorough { 200 } else { 30 }) {
+                let a = dt_1678_2262(&mut r, u);
+                pairs.push((a, dt_1678_2262(&mut r, u), "y1678_2262"));
+                pairs.push((a, a + mag_i64(&mut r) % 100_000, "near"));
+            }
+            for (a, b, class) in pairs {
+                em.case("exact", &format!("fn=r17_ab2 unit={} class={}", uname(u), class),
+                    &format!("a = DateTime<{}>({}), b = ({}): a - b, then a - (a - b)", uname(u), a, b),
+                    || format!("(r17_ab2 {} {} {})", uname(u), z(a), z(b)), || {
+                    with_unit!(u, U => {
+                        prime(b, u); prime(a, u); let (da, db) = (DateTime::<U>::new(a), DateTime::<U>::new(b));
+                        g(|| da - db, |d| { let mut c = td_cells(&d); c.extend(gi(|| (da - d).into_i64())); c })
+                    })
+                });
+            }
+        }
+        // (c) TimeDelta + - * neg with NaT operands (impl_ops.rs Sub: `TimeDelta::nat()`), both NaT encodings, and at the limits
+        {
+            let specials: Vec<(i32, i128)> = vec![(i32::MIN, 0), (i32::MIN, 5), (0, 0), (1, 0), (-1, 7), (i32::MAX, 0), (i32::MIN + 1, 0), (0, DUR_MAX_NS), (0, -DUR_MAX_NS), (1200, 86_400_000_000_000)];
+            for &a in &specials { for &b in &specials {
+                let k = [0, 1, -1, 2, 1200][(r.next() % 5) as usize] as i32;
+                em.case("exact", &format!("fn=r17_tdops nat_l={} nat_r={}", a.0 == i32::MIN, b.0 == i32::MIN),
+                    &format!("a=TimeDelta{{{},{}}} b={{{},{}}} k={}: a+b a-b a*k -a", a.0, a.1, b.0, b.1, k),
+                    || format!("(r17_tdops {} {} {})", td_coq(a.0, a.1), td_coq(b.0, b.1), coq_z(k as i128)), || {
+                    let (ta, tb) = (td(a.0, a.1), td(b.0, b.1));
+                    let mut c = gtd(|| ta + tb); c.extend(gtd(|| ta - tb)); c.extend(gtd(|| ta * k)); c.extend(gtd(|| -ta)); c
+                });
+            } }
+        }
+        // (d) months + fixed part in one operator vs two operators; x - d vs x + (-d); x + k months - k months
+        for u in 0..4 {
+            for _ in 0..(if thorough { 150 } else { 25 }) {
+                for (x, xclass) in dt_values(&mut r, u, 1).into_iter().skip(3) {
+                    let k = match r.below(4) { 0 => 1, 1 => -1, 2 => r.range(-1200, 1200) as i32, _ => r.range(-14, 14) as i32 };
+                    let n: i128 = match r.below(4) { 0 => 0, 1 => r.range(-5, 5) as i128, 2 => mag_i64(&mut r) as i128 / 1000, _ => r.range(-100_000, 100_000) as i128 * PER_SEC[3 - u] as i128 };
+                    em.case("exact", &format!("fn=r17_mixed unit={} x={} kzero={} nzero={}", uname(u), xclass, k == 0, n == 0),
+                        &format!("DateTime<{}>({}) + TimeDelta{{{},{}}} vs (+ {} months) then (+ {} ns)", uname(u), x, k, n, k, n),
+                        || format!("(r17_mixed {} {} {})", uname(u), z(x), td_coq(k, n)), || {
+                        with_unit!(u, U => {
+                            prime(x, u); let d = DateTime::<U>::new(x);
+                            let mut c = gi(|| (d + td(k, n)).into_i64());
+                            c.extend(gi(|| ((d + td(k, 0)) + td(0, n)).into_i64())); c
+                        })
+                    });
+                    em.case("exact", &format!("fn=r17_subneg unit={} x={} kzero={}", uname(u), xclass, k == 0),
+                        &format!("DateTime<{}>({}) - TimeDelta{{{},{}}} vs + (-d)", uname(u), x, k, n),
+                        || format!("(r17_subneg {} {} {})", uname(u), z(x), td_coq(k, n)), || {
+                        with_unit!(u, U => {
+                            prime(x, u); let d = DateTime::<U>::new(x);
+                            let mut c = gi(|| (d - td(k, n)).into_i64());
+                            c.extend(gi(|| (d + (-td(k, n))).into_i64())); c
+                        })
+                    });
+                    em.case("exact", &format!("fn=r17_month_rt unit={} x={} kzero={}", uname(u), xclass, k == 0),
+                        &format!("DateTime<{}>({}) + {} months - {} months", uname(u), x, k, k),
+                        || format!("(r17_month_rt {} {} {})", uname(u), z(x), coq_z(k as i128)), || {
+                        with_unit!(u, U => {
+                            prime(x, u); let d = DateTime::<U>::new(x);
+                            let mut c = gi(|| (d + td(k, 0)).into_i64());
+                            c.extend(gi(|| ((d + td(k, 0)) - td(k, 0)).into_i64())); c
+                        })
+                    });
+                }
+            }
+        }
+        // (e) Time - d then + d
+        for i in 0..(if thorough { 400 } else { 80 }) {
+            let t: i64 = match i % 5 { 0 => r.range(0, 86_399_999_999_999), 1 => NAT, 2 => mag_i64(&mut r), 3 => NAT + 1 + r.range(0, 5), _ => i64::MAX - r.range(0, 5) };
+            let ns: i128 = match r.below(4) { 0 => r.range(-10, 10) as i128, 1 => mag_i64(&mut r) as i128, 2 => i64::MAX as i128 + r.range(0, 3) as i128, _ => r.range(-86_400_000_000_000, 86_400_000_000_000) as i128 };
+            em.case("exact", &format!("fn=r17_time_rt nat={} big={}", t == NAT, ns.abs() > i64::MAX as i128),
+                &format!("Time({}) - {} ns, then + {} ns", t, ns, ns),
+                || format!("(r17_time_rt {} {})", z(t), coq_z(ns)), || {
+                let tt = Time::from_i64(t);
+                let mut c = gi(|| (tt - td(0, ns)).into_i64());
+                c.extend(gi(|| ((tt - td(0, ns)) + td(0, ns)).into_i64())); c
+            });
+        }
+    }
     em.finish();
 }
